@@ -130,6 +130,12 @@ def handle (op : String) (a : Json) : Except String Json := do
           ("raw", boundsJ b)]
       else return Json.mkObj [("raise", Json.str "not-geos-buffered")]
     | none => return Json.mkObj [("raise", Json.str "empty")]
+  | "area" =>
+    -- shoelace area of an unbuffered (multi)polygon / box (contract `AreaExact`)
+    let g ← getGeom (← fld a "g")
+    match closedArea g with
+    | some x => return valJ (ratJ x)
+    | none => return Json.mkObj [("raise", Json.str "not-polygonal")]
   | "iou" =>
     return valJ (ratJ (iouC (← fldRat a "a") (← fldRat a "b") (← fldRat a "i")))
   | "time_iou" =>
